@@ -47,6 +47,8 @@ TRUSTED = ['harness seams replaced by recorders',
            'tree stream: executions and task executions are identified by creation rank; state_info / output are compared '
            'by class (none / the operator message / engine-computed)']
 LEAN_MODULES = ['Mistral.Props.C11', 'Mistral.Props.C11Tree']
+# second/third round: the C11Tree theorems are at full strength and hold for EVERY event history (stops, pause and
+# resume commands with their propagation, lost post-commit operations); see docs/C11.md
 
 
 def correspond(ctx):
